@@ -476,7 +476,11 @@ class CallMixin:
         elif len(zs) == 2:
             yield st, RangeVal(zs[0], zs[1])
         else:
-            raise EngineError("range with step")
+            stp = z3.simplify(zs[2])
+            if z3.is_int_value(stp) and stp.as_long() in (1, -1):
+                yield st, RangeVal(zs[0], zs[1], stp.as_long())
+            else:
+                raise EngineError("range with a step other than 1 / -1")
 
     def bi_enumerate(self, st, args, kw, node):
         start = coerce(self.as_value(kw["start"]), INT).z if "start" in kw else (
